@@ -235,6 +235,8 @@ type result struct {
 	ReentrantAt          []string       `json:"reentrant_serve_calls_at"`
 	CrossMux             []string       `json:"cross_mux_registrations"`
 	UnlockedEntryPoints  []string       `json:"unlocked_entry_points"`
+	BootConcurrentAt     []string       `json:"boot_concurrent_at"`
+	BootCallers          []string       `json:"boot_callers"`
 	GoStmtsImportClosure map[string]int `json:"go_stmts_in_import_closure"`
 	FilesParsed          int            `json:"files_parsed"`
 }
@@ -901,6 +903,220 @@ func analyseInformational(res *result) {
 	visit(engineApiPkg)
 }
 
+// The engine's exported Mux methods that are not registered as handlers (SetScenario, SetSolution, SetSolutionSummary, ...)
+// change the served state WITHOUT the request lock. That is sound only while no request can be in flight: they must be
+// reached, outside the handler packages, only from straight-line start-up code that runs BEFORE the server is started -
+// never from a go statement or a function literal, and never after the call that runs the server. This pass lists every
+// site that breaks that rule (an empty list is the side condition of C16's boot clause).
+func analyseBoot(res *result) {
+	res.BootConcurrentAt, res.BootCallers = []string{}, []string{}
+	entry := map[string]bool{}
+	for _, n := range res.UnlockedEntryPoints {
+		if strings.HasPrefix(n, "Set") {
+			entry[n] = true
+		}
+	}
+	isHandlerPkg := map[string]bool{}
+	for _, h := range handlerPkgs {
+		isHandlerPkg[h] = true
+	}
+	entryCall := func(n ast.Node) bool {
+		call, ok := n.(*ast.CallExpr)
+		if !ok {
+			return false
+		}
+		sel, ok := call.Fun.(*ast.SelectorExpr)
+		return ok && entry[sel.Sel.Name]
+	}
+	dirs := []string{}
+	for d := range pkgs {
+		dirs = append(dirs, d)
+	}
+	sort.Strings(dirs)
+	for _, dir := range dirs {
+		if isHandlerPkg[dir] {
+			continue
+		}
+		p := pkgs[dir]
+		funcs := map[string]*ast.FuncDecl{}
+		for _, fi := range p.files {
+			for _, d := range fi.file.Decls {
+				if fd, ok := d.(*ast.FuncDecl); ok && fd.Body != nil {
+					funcs[fd.Name.Name] = fd // methods and functions by bare name: an over-approximation
+				}
+			}
+		}
+		// an engine type that merely forwards (func (e *Engine) SetScenario(f) { e.mux.SetScenario(f) }) is an entry itself
+		reaches := map[string]bool{}
+		calledName := func(call *ast.CallExpr) string {
+			switch f := call.Fun.(type) {
+			case *ast.Ident:
+				return f.Name
+			case *ast.SelectorExpr:
+				return f.Sel.Name
+			}
+			return ""
+		}
+		for changed := true; changed; {
+			changed = false
+			for name, fd := range funcs {
+				if reaches[name] {
+					continue
+				}
+				hit := false
+				ast.Inspect(fd.Body, func(n ast.Node) bool {
+					if call, ok := n.(*ast.CallExpr); ok {
+						if entryCall(call) || (funcs[calledName(call)] != nil && reaches[calledName(call)]) {
+							hit = true
+						}
+					}
+					return !hit
+				})
+				if hit {
+					reaches[name] = true
+					changed = true
+				}
+			}
+		}
+		if len(reaches) == 0 {
+			continue
+		}
+		// which functions of this package start the server: a call of a method named Run / Start / ListenAndServe
+		serves := map[string]bool{}
+		for changed := true; changed; {
+			changed = false
+			for name, fd := range funcs {
+				if serves[name] {
+					continue
+				}
+				hit := false
+				ast.Inspect(fd.Body, func(n ast.Node) bool {
+					if call, ok := n.(*ast.CallExpr); ok {
+						cn := calledName(call)
+						if _, isSel := call.Fun.(*ast.SelectorExpr); isSel && (cn == "Run" || cn == "Start" || cn == "ListenAndServe") {
+							hit = true
+						}
+						if funcs[cn] != nil && serves[cn] && !reaches[cn] {
+							hit = true
+						}
+					}
+					return !hit
+				})
+				if hit {
+					serves[name] = true
+					changed = true
+				}
+			}
+		}
+		reachesCall := func(n ast.Node) bool {
+			found := false
+			ast.Inspect(n, func(m ast.Node) bool {
+				if call, ok := m.(*ast.CallExpr); ok {
+					if entryCall(call) || (funcs[calledName(call)] != nil && reaches[calledName(call)]) {
+						found = true
+					}
+				}
+				return !found
+			})
+			return found
+		}
+		// a go statement (function literal, deferred call) that carries the WHOLE start-up-then-serve sequence to another
+		// goroutine keeps the order; one that reaches the loaders but not the start of the server runs beside it
+		servesAny := map[string]bool{}
+		for changed := true; changed; {
+			changed = false
+			for name, fd := range funcs {
+				if servesAny[name] {
+					continue
+				}
+				hit := false
+				ast.Inspect(fd.Body, func(n ast.Node) bool {
+					if call, ok := n.(*ast.CallExpr); ok {
+						cn := calledName(call)
+						if _, isSel := call.Fun.(*ast.SelectorExpr); isSel && (cn == "Run" || cn == "Start" || cn == "ListenAndServe") {
+							hit = true
+						}
+						if funcs[cn] != nil && servesAny[cn] {
+							hit = true
+						}
+					}
+					return !hit
+				})
+				if hit {
+					servesAny[name] = true
+					changed = true
+				}
+			}
+		}
+		servesCall := func(n ast.Node) bool {
+			found := false
+			ast.Inspect(n, func(m ast.Node) bool {
+				if call, ok := m.(*ast.CallExpr); ok {
+					cn := calledName(call)
+					if _, isSel := call.Fun.(*ast.SelectorExpr); isSel && (cn == "Run" || cn == "Start" || cn == "ListenAndServe") {
+						found = true
+					}
+					if funcs[cn] != nil && servesAny[cn] {
+						found = true
+					}
+				}
+				return !found
+			})
+			return found
+		}
+		names := []string{}
+		for n := range reaches {
+			names = append(names, n)
+		}
+		sort.Strings(names)
+		for _, n := range names {
+			res.BootCallers = append(res.BootCallers, dir+"."+n)
+		}
+		for _, fi := range p.files {
+			ast.Inspect(fi.file, func(n ast.Node) bool {
+				switch x := n.(type) {
+				case *ast.GoStmt:
+					if reachesCall(x.Call) && !servesCall(x.Call) {
+						res.BootConcurrentAt = append(res.BootConcurrentAt, pos(x)+": go statement reaches an unlocked state-changing entry point of the engine")
+					}
+				case *ast.FuncLit:
+					if reachesCall(x.Body) && !servesCall(x.Body) {
+						res.BootConcurrentAt = append(res.BootConcurrentAt, pos(x)+": function literal reaches an unlocked state-changing entry point of the engine")
+					}
+				case *ast.DeferStmt:
+					if reachesCall(x.Call) {
+						res.BootConcurrentAt = append(res.BootConcurrentAt, pos(x)+": deferred call reaches an unlocked state-changing entry point of the engine")
+					}
+				case *ast.BlockStmt:
+					served := false
+					for _, st := range x.List {
+						es, ok := st.(*ast.ExprStmt)
+						if !ok {
+							continue
+						}
+						call, ok := es.X.(*ast.CallExpr)
+						if !ok {
+							continue
+						}
+						cn := calledName(call)
+						if served && reachesCall(call) {
+							res.BootConcurrentAt = append(res.BootConcurrentAt, pos(call)+": an unlocked state-changing entry point of the engine is reached after the server was started")
+						}
+						if funcs[cn] != nil && serves[cn] && !reaches[cn] {
+							served = true
+						}
+						if _, isSel := call.Fun.(*ast.SelectorExpr); isSel && (cn == "Run" || cn == "Start" || cn == "ListenAndServe") {
+							served = true
+						}
+					}
+				}
+				return true
+			})
+		}
+	}
+	sort.Strings(res.BootConcurrentAt)
+}
+
 func coqBool(b bool) string {
 	if b {
 		return "true"
@@ -942,6 +1158,9 @@ func writeCoq(res *result, path string) {
 	b.WriteString("(* reported, not an obligation *)\n")
 	b.WriteString("Definition cross_mux_registrations : list string := " + coqStringList(res.CrossMux) + ".\n")
 	b.WriteString("Definition unlocked_entry_points : list string := " + coqStringList(res.UnlockedEntryPoints) + ".\n")
+	b.WriteString("(* sites where an unlocked state-changing entry point is reached concurrently with (or after) serving: must be [] *)\n")
+	b.WriteString("Definition boot_concurrent_sites : list string := " + coqStringList(res.BootConcurrentAt) + ".\n")
+	b.WriteString("Definition boot_callers : list string := " + coqStringList(res.BootCallers) + ".\n")
 	if err := os.WriteFile(path, []byte(b.String()), 0o644); err != nil {
 		fatal("cannot write %s: %v", path, err)
 	}
@@ -967,6 +1186,7 @@ func main() {
 	analyseEmbedders(res)
 	analyseHandlerPackages(res)
 	analyseInformational(res)
+	analyseBoot(res)
 	found := false
 	for _, e := range res.Embedders {
 		if e[0] == engineApiPkg+".Mux" {
